@@ -86,7 +86,9 @@ TLC_JAR = "/opt/veriftools/tla/tla2tools.jar"
 
 
 def tlc_cmd(module, cfg, workers, metadir, extra=None, simulate=None):
-    cmd = ["tlc", "-workers", str(workers), "-metadir", metadir, "-cleanup", "-noGenerateSpecTE", "-config", cfg]
+    # (-checkpoint 0: no checkpoints - the depth-first queue used for trace validation cannot write them, and a run that passes
+    # the 30-minute mark would die with "StateDeque does not support checkpointing")
+    cmd = ["tlc", "-workers", str(workers), "-metadir", metadir, "-cleanup", "-noGenerateSpecTE", "-checkpoint", "0", "-config", cfg]
     if simulate:
         cmd += ["-simulate", f"num={simulate[0]}", "-depth", str(simulate[1])]
     if extra:
